@@ -464,3 +464,80 @@ def trunc_date_case(name):
 
 _REG["parsers:TimePointParser.parse"].cases = list(_REG["parsers:TimePointParser.parse"].cases) + [
     trunc_date_case(n) for n in TRUNC_DATE_FORMS]
+
+
+# ---------------------------------------------------------------- time-only truncated forms (C07)
+TRUNC_TIME_FORMS = {
+    # name: (basic template, extended template or None when spelled alike)
+    "hhmmss": (["hour_of_day", "minute_of_hour", "second_of_minute"],
+               ["hour_of_day", ":", "minute_of_hour", ":", "second_of_minute"]),
+    "hhmm": (["hour_of_day", "minute_of_hour"], ["hour_of_day", ":", "minute_of_hour"]),
+    "hh": (["hour_of_day"], None),
+    "-mmss": (["-", "minute_of_hour", "second_of_minute"],
+              ["-", "minute_of_hour", ":", "second_of_minute"]),
+    "-mm": (["-", "minute_of_hour"], None),
+    "--ss": (["--", "second_of_minute"], None),
+}
+_TSLOT = {"hour_of_day": "_hour_of_day", "minute_of_hour": "_minute_of_hour",
+          "second_of_minute": "_second_of_minute"}
+_TOK = {"hour_of_day": "0 <= fld('hour_of_day') and fld('hour_of_day') <= 24",
+        "minute_of_hour": "0 <= fld('minute_of_hour') and fld('minute_of_hour') <= 59",
+        "second_of_minute": "0 <= fld('second_of_minute') and fld('second_of_minute') <= 59"}
+
+
+def trunc_time_case(name, style, zone):
+    templ = TRUNC_TIME_FORMS[name][0 if style == "basic" else 1]
+
+    def build(E, st):
+        ps = ["T"] + [fld(E, st, t, 2) if t in _TSLOT else t for t in templ]
+        if zone == "Z":
+            ps.append("Z")
+        elif zone != "none":
+            ps += [zone[0], fld(E, st, "time_zone_hour", 2)]
+            if zone.endswith("mm"):
+                if style == "extended":
+                    ps.append(":")
+                ps.append(fld(E, st, "time_zone_minute", 2))
+        r = mk_text_parser(E, st, assumed=None)
+        st.obj(r).slots["allow_truncated"] = True
+        st.obj(r).slots["default_to_unknown_time_zone"] = True
+        return {"self": r, "timepoint_string": Text(ps).simplest()}
+    spelled = [t for t in templ if t in _TSLOT]
+    ens = ["result._truncated is True and result._truncated_property is None",
+           "result._year is None and result._month_of_year is None and result._day_of_month is None"
+           " and result._day_of_year is None and result._week_of_year is None"
+           " and result._day_of_week is None"]
+    for t in _TSLOT:
+        ens.append("result.%s == fld('%s')" % (_TSLOT[t], t) if t in spelled
+                   else "result.%s is None" % _TSLOT[t])
+    sgn = "-" if zone.startswith("-") else ""
+    if zone == "none":
+        ens.append("result._time_zone._unknown is True")
+        zok = "True"
+    elif zone == "Z":
+        ens.append("result._time_zone._unknown is False and result._time_zone._hours == 0"
+                   " and result._time_zone._minutes == 0")
+        zok = "True"
+    else:
+        mm = ("%sfld('time_zone_minute')" % sgn) if zone.endswith("mm") else "0"
+        ens.append("result._time_zone._unknown is False"
+                   " and result._time_zone._hours == %sfld('time_zone_hour')"
+                   " and result._time_zone._minutes == %s" % (sgn, mm))
+        zok = "zone_fields_ok(%sfld('time_zone_hour'), %s)" % (sgn, mm)
+    ok = " and ".join("(%s)" % _TOK[t] for t in spelled)
+    # 24 is the end of the day: only with zero (or absent) minutes and seconds
+    if "hour_of_day" in spelled:
+        rest = [t for t in spelled if t != "hour_of_day"]
+        if rest:
+            ok += " and (fld('hour_of_day') < 24 or (%s))" % " and ".join(
+                "fld('%s') == 0" % t for t in rest)
+    return Case("trunc-time|%s:%s/%s" % (style[0], name, zone), build, ensures=ens,
+                raises=[("BadInputError", "not (%s and %s)" % (ok, zok))])
+
+
+_tt = []
+for _n, (_b, _e) in TRUNC_TIME_FORMS.items():
+    for _style in (("basic", "extended") if _e is not None else ("basic",)):
+        for _z in ("none", "Z", "+hh", "-hhmm"):
+            _tt.append(trunc_time_case(_n, _style, _z))
+_REG["parsers:TimePointParser.parse"].cases = list(_REG["parsers:TimePointParser.parse"].cases) + _tt
